@@ -34,6 +34,7 @@ TECHNIQUE = "static analysis: ordered effect scripts and structural dominance ov
 def run(ctx):
     _run_main(ctx)
     _shared_r4(ctx)
+    _shared_r5(ctx)
 
 
 def _run_main(ctx):
@@ -197,3 +198,10 @@ def _shared_r4(ctx):
         A.include(ctx, r, 'c01', 'R01.3', pick=('shrinkers',))
     with ctx.rule('R08.10', "both connection-close arms tell each slot's consumers before they release that slot's caller, so the close is reported as what it was (shared with C11)", floor=2) as r:
         A.include(ctx, r, 'c11', 'R11.7')
+
+
+def _shared_r5(ctx):
+    """Rules of other properties that are necessary conditions of this one too (found by seeding round 5)."""
+    from rules import arms as A
+    with ctx.rule('R08.11', "a request that becomes visible together with the server's Close cannot stop the CloseOk from being written: stale wake-ups are ignored (shared with C20)", floor=3) as r:
+        A.include(ctx, r, 'c20', 'R20.2', pick=(':stale', ':steady'))
